@@ -207,6 +207,98 @@ def print_program(prog, rng=None):
 
 
 # ----------------------------------------------------------------------------
+# Coq term of a program (for witnesses in the proof files)
+# ----------------------------------------------------------------------------
+def coq_term(prog):
+    """Gallina term of type `program` for the printed program (offsets as the printer computes them)."""
+    toks = [int(x) for x in print_program(prog)[1].split()]
+    i = [0]
+
+    def nx():
+        v = toks[i[0]]; i[0] += 1
+        return v
+
+    def expr():
+        t = nx()
+        return "(EIdent %d)" % nx() if t == 0 else "(ECall %d)" % nx() if t == 1 else "ELit"
+
+    def opt(f):
+        return "(Some %s)" % f() if nx() else "None"
+
+    def cond():
+        t = nx()
+        return "CTrue" if t == 0 else "CFalse" if t == 1 else "(COpaque %s)" % expr()
+
+    def num():
+        return str(nx())
+
+    def stmts():
+        n = nx()
+        items = [stmt() for _ in range(n)]
+        out = "SNil"
+        for it in reversed(items):
+            out = "(SCons %s %s)" % (it, out)
+        return out
+
+    def cases():
+        n = nx()
+        items = []
+        for _ in range(n):
+            cp, d, ft = nx(), nx(), nx()
+            items.append((cp, d, ft, stmts()))
+        out = "CNil"
+        for cp, d, ft, b in reversed(items):
+            out = "(CCons %d %s %s %s %s)" % (cp, "true" if d else "false", "true" if ft else "false", b, out)
+        return out
+
+    def stmt():
+        t, p = nx(), nx()
+        if t == 0: return "(SExpr %d %s)" % (p, expr())
+        if t == 1: return "(SEmpty %d)" % p
+        if t == 2:
+            v = nx()
+            return "(SVar %d %s %s)" % (p, "true" if v else "false", opt(expr))
+        if t == 3:
+            n, pb = nx(), nx()
+            return "(SFnDecl %d %d %d %s)" % (p, n, pb, stmts())
+        if t == 4:
+            pb = nx()
+            return "(SArrowStmt %d %d %s)" % (p, pb, stmts())
+        if t == 5: return "(SRet %d %s)" % (p, opt(expr))
+        if t == 6: return "(SThrow %d %s)" % (p, expr())
+        if t == 7: return "(SBrk %d %s)" % (p, opt(num))
+        if t == 8: return "(SCont %d %s)" % (p, opt(num))
+        if t == 9: return "(SBlock %d %s)" % (p, stmts())
+        if t == 10:
+            c = cond(); return "(SIf %d %s %s)" % (p, c, stmt())
+        if t == 11:
+            c = cond(); a = stmt(); return "(SIfElse %d %s %s %s)" % (p, c, a, stmt())
+        if t == 12:
+            c = cond(); return "(SWhile %d %s %s)" % (p, c, stmt())
+        if t == 13:
+            b = stmt(); return "(SDoWhile %d %s %s)" % (p, b, cond())
+        if t == 14:
+            c = opt(cond); return "(SFor %d %s %s)" % (p, c, stmt())
+        if t == 15: return "(SForIn %d %s)" % (p, stmt())
+        if t == 16: return "(SForOf %d %s)" % (p, stmt())
+        if t == 17: return "(SSwitch %d %s)" % (p, cases())
+        if t == 18:
+            l = nx(); return "(SLabel %d %d %s)" % (p, l, stmt())
+        if t == 19:
+            bp = nx(); blk = stmts()
+            h = "(Some (%d, %d))" % (nx(), nx()) if nx() else "None"
+            hb = stmts()
+            f = "(Some %d)" % nx() if nx() else "None"
+            fb = stmts()
+            return "(STry %d %d %s %s %s %s %s)" % (p, bp, blk, h, hb, f, fb)
+        raise ValueError(t)
+
+    g, ps, pb = nx(), nx(), nx()
+    body = stmts()
+    return "{| p_getter := %s; p_start := %d; p_pb := %d; p_body := %s |}" % ("true" if g else "false", ps, pb, body)
+
+
+# ----------------------------------------------------------------------------
 # random generator
 # ----------------------------------------------------------------------------
 class Ctx:
@@ -606,7 +698,7 @@ def model_body(prog):
     return body
 
 
-def classify_many(progs):
+def classify_many(progs, base=0):
     """For each program with a violation on the faithful model: the smallest set of classes, e.g. "A" or "A+D",
        such that (i) the syntactic feature of each class is present in the program and (ii) switching ONLY those
        repairs on in the model removes every violation of the program; None if there is no such set (an
@@ -615,7 +707,7 @@ def classify_many(progs):
         return []
     toks = [print_program(p)[1] for p in progs]
     masks = sorted(range(1, ALL_FIXES + 1), key=lambda m: (bin(m).count("1"), m))
-    by_mask = {m: model_oracle(toks, m) for m in masks}
+    by_mask = {m: model_oracle(toks, base | m) for m in masks}
     out = []
     for i, p in enumerate(progs):
         body = model_body(p)
@@ -816,7 +908,7 @@ def compare_programs(progs, rng, mask=0, want_oracle=True):
     t2 = time.time()
     irl = impl_rules(srcs)
     t3 = time.time()
-    orc = model_oracle(toks, 0) if want_oracle else None
+    orc = model_oracle(toks, mask) if want_oracle else None
     orc_fixed = model_oracle(toks, ALL_FIXES) if want_oracle else None
     t4 = time.time()
     mism = []
@@ -861,13 +953,17 @@ TIERS = {
 }
 
 
-def compare_all(tier="quick", seed=1, mask=0, chunk=20000, shrink_limit=12):
+def compare_all(tier="quick", seed=1, mask=0, chunk=20000, shrink_limit=12, vh=None):
     """Model vs implementation (info map entry by entry, the three rules' diagnostics) and the C10/C11
        property oracles, on random programs (seeded) + all programs up to a small size.
        `mask`: repairs switched on in the model (0 = faithful; use 3 against an implementation patched
-       with cf-fix-A/B)."""
+       with cf-fix-A/B; 11 with A/B/D).  `vh`: path of an alternative harness binary (a build against a
+       patched scratch copy of the repository); the property oracle then runs on the model with `mask`."""
     cfg = TIERS[tier]
     t_start = time.time()
+    if vh:
+        import lib as _lib
+        _lib._built["release"] = vh
     build_harness("release")
     exe, err = build_model("cf")
     if exe is None:
@@ -928,7 +1024,7 @@ def compare_all(tier="quick", seed=1, mask=0, chunk=20000, shrink_limit=12):
             (origin, len(progs), res["n_mismatches"], len(violating)))
     res["violating_programs"] = len(violating)
     # classification (on the original programs), then shrinking of a few per class
-    cls = classify_many([v[0] for v in violating]) if violating else []
+    cls = classify_many([v[0] for v in violating], mask) if violating else []
     per_class = {}
     for (p, src, o), c in zip(violating, cls):
         key = c or "unexplained"
@@ -942,9 +1038,9 @@ def compare_all(tier="quick", seed=1, mask=0, chunk=20000, shrink_limit=12):
         for p, src, o in items[:shrink_limit]:
             kinds = tuple(k for k in ("c10", "getter", "cases") if o[k])
             cm = sum(MASKS[c] for c in key.split("+")) if key != "unexplained" else None
-            small = shrink(p, violation_pred(0, kinds, cm))
+            small = shrink(p, violation_pred(mask, kinds, None if cm is None else (cm | mask)))
             ssrc, stok, _ = print_program(small)
-            so = model_oracle([stok], 0)[0]
+            so = model_oracle([stok], mask)[0]
             ex.append({"src": ssrc, "class_of_minimal": classify_cf_violation(small), "size": prog_size(small),
                        "c10": so["c10"], "getter": so["getter"], "cases": so["cases"], "tokens": stok})
         # distinct minimal programs
@@ -986,6 +1082,6 @@ if __name__ == "__main__":
     tier = sys.argv[1] if len(sys.argv) > 1 else "quick"
     seed = int(sys.argv[2]) if len(sys.argv) > 2 else 1
     mask = int(sys.argv[3]) if len(sys.argv) > 3 else 0
-    r = compare_all(tier, seed, mask)
+    r = compare_all(tier, seed, mask, vh=os.environ.get("CF_VH"))
     print(summary(r))
     sys.exit(1 if (r["n_mismatches"] or r["classes"]["unexplained"] or r["unexplained_after_repair"]) else 0)
